@@ -266,7 +266,7 @@ package ro
 //@   ensures [other-modes-rejected] panics ==> mode != 0 && mode != 1 && mode != 2
 
 //@ func (*observableImpl).SubscribeWithContext
-//@   props C01 C02 C03 C07 C14 C20
+//@   props C01 C02 C03 C07 C14 C20 C06
 //@   binds s ctx destination
 //@   scope ctx destination e mode s subscribe subscription
 //@   panicforks
@@ -275,7 +275,7 @@ package ro
 //@   ensures [subscribe-sees-only-the-gate|C01,C20] arg(callfn.subscribe, 0) == ctx && arg(callfn.subscribe, 1) == res(call.NewSubscriberWithConcurrencyMode)
 //@   ensures [teardown-registered|C03,C14] !panicked(subscribe) && !caught ==> trace(call.NewSubscriberWithConcurrencyMode(_, _), callfn.subscribe(_, _), subscription.Add(res(callfn.subscribe)))
 //@   ensures [panic-becomes-error-then-release|C01,C02,C07,C03] panicked(subscribe) ==> trace(call.NewSubscriberWithConcurrencyMode(_, _), callfn.subscribe(_, _), subscription.ErrorWithContext(ctx, newObservableError(recoverValueToError(panicval(subscribe)))), subscription.Unsubscribe())
-//@   ensures [returns-the-gate|C01] result == res(call.NewSubscriberWithConcurrencyMode)
+//@   ensures [returns-the-gate|C01,C06] result == res(call.NewSubscriberWithConcurrencyMode)
 
 // ---------------------------------------------------------------------------
 // The named constructors fix the concurrency mode (0 safe, 1 unsafe, 2 eventually safe). Layer P4 and every
